@@ -17,26 +17,46 @@ RULE = ("Model-based histories on ONE Spinner over a deterministic virtual-time 
         "(ties admit either outcome), reactor not running, no delayed calls or selectables left, leftovers reported "
         "as junk, reactor.stop and the three signal handlers restored. A small real-reactor tier (thorough) runs the "
         "timing-insensitive subset on the global reactor. Also: f firing (callback or errback) the Deferred an earlier unfinished run waited on, delayed calls that exist before run(), positional and keyword arguments of run(), fractional timeouts, reactor.stop and pending calls after a refused run. "
+        "Also (third audit): selectables that exist before run(); one or two stop requests per run (SIGINT, SIGTERM or a bare reactor.stop(), the second in the "
+        "same reactor pass or later) over a reactor that, like the real ones, cannot run again once its real stop() was called; f raising / its Deferred failing "
+        "with KeyboardInterrupt or SystemExit, and the exception that leaves run() must have the class and arguments of the one f produced; a value equal to "
+        "everything; timeout 0; spinner.run() attempted from a delayed call due at the instant the run ends; every definite leftover must itself be in the junk "
+        "list; a run that would never end is a violation. At a timeout/result tie the spinner's timeout call is recognised structurally (the delayed call the code "
+        "under test scheduled in this run() before calling f, due 'timeout' after the start; no private names) and the result call is the harness's own. "
+        "A small exhaustive corner grid repeats these dimensions at every seed. "
         "Non-trivial: second or later run on the same spinner, or "
         "an interrupt, or leftovers; distinct = distinct canonical history.")
 ASSUMPTIONS = [
     "the virtual reactor (task.Clock + ~120 lines) is faithful for what Spinner touches; ties at one virtual instant admit either order",
     "the spinner's own timeout call, still pending when the reactor is interrupted, counts as a leftover (it is cancelled and reported as junk)",
+    "... but that is a tolerance, not a demand: a spinner that cancels its own timeout call itself and does not report it is admitted "
+    "(the junk count has a lower and an upper bound; third audit C2)",
+    "when the timeout and the Deferred are due in the same reactor pass, the one the reactor ran first decides: the timeout call having run while the "
+    "Deferred had not fired is 'the Deferred has not fired when timeout elapses'; if the spinner scheduled no delayed call due at start + timeout "
+    "(it keeps time differently) both outcomes are admitted",
+    "a function that completes synchronously decides the run before any timed event or stop request at virtual instant 0 (the spinner starts f as soon "
+    "as the reactor runs); a spinner that started f through a 0-delay call would be judged against this model (third audit C3)",
+    "'reported as junk' is read as: the leftover delayed call / selectable object itself is in the list get_junk() / clear_junk() return",
+    "'raises the exception f raised / its Deferred failed with' is checked as: same class and same args (not object identity)",
+    "f does not cancel delayed calls it did not schedule (cancelling the spinner's own timeout call loses the result: third audit B1, a live behaviour "
+    "reported separately, not generated)",
 ]
 
 TIMES = [0, 1, 2, 3, 5]
 HANDLERS = ["SIG_DFL", "SIG_IGN", "default_int_handler", "pyfunc"]
+EXC_NAMES = ["UserError", "UserError", "KeyboardInterrupt", "SystemExit"]
+SIGS = ["SIGINT", "SIGINT", "SIGTERM", "stop"]
 
 
 @st.composite
 def s_run(draw):
     kind = draw(st.sampled_from(["return", "raise", "fire", "fail", "never", "fire", "fail"]))
-    step = {"op": "run", "kind": kind, "timeout": draw(st.sampled_from([1, 2, 3, 5, 0.5, 2.5])),
+    step = {"op": "run", "kind": kind, "timeout": draw(st.sampled_from([1, 2, 3, 5, 0.5, 2.5, 0])),
             # f fires the Deferred an earlier, unfinished run of this spinner was waiting for (if there is one)
             "fire_old": draw(st.sampled_from([False, False, False, "callback", "errback"])),
             "extra_before": draw(st.booleans()),       # the extra delayed calls exist before run() is called, not made by f
             "t": draw(st.sampled_from(TIMES)) if kind in ("fire", "fail") else None,
-            "value": draw(st.sampled_from([None, 0, "v", (1, 2)])),
+            "value": draw(st.sampled_from([None, 0, "v", (1, 2), "HOSTILE"])),      # HOSTILE: an object equal to everything
             "extra": draw(st.lists(st.sampled_from(TIMES + [7]), max_size=3)),
             "selectables": draw(st.integers(0, 2)) if draw(st.integers(0, 3)) == 0 else 0,
             "interrupt": draw(st.one_of(st.none(), st.none(), st.sampled_from(TIMES))),
@@ -44,6 +64,16 @@ def s_run(draw):
             "ties": draw(st.lists(st.integers(0, 3), max_size=4)),
             "handlers": [draw(st.sampled_from(HANDLERS)) for _ in range(3)],
             "own_stop": draw(st.sampled_from([False, False, True]))}      # the application had wrapped reactor.stop on the instance
+    # what f raises / its Deferred fails with: an Exception, or a BaseException that is not one
+    step["exc"] = draw(st.sampled_from(EXC_NAMES)) if kind in ("raise", "fail") else "UserError"
+    # a second stop request in the same run (an impatient second Ctrl-C), possibly in the same reactor pass
+    step["interrupt2"] = None
+    if step["interrupt"] is not None:
+        second = draw(st.sampled_from([None, None, "same", "same"] + TIMES))
+        step["interrupt2"] = step["interrupt"] if second == "same" else second
+    # how each of the two stop requests arrives: a signal, or reactor.stop() called from outside any delayed call
+    step["sigs"] = [draw(st.sampled_from(SIGS)), draw(st.sampled_from(SIGS))]
+    step["late_reenter"] = draw(st.sampled_from([False, False, False, False, True])) if kind in ("fire", "fail", "never") else False
     return step
 
 
@@ -66,15 +96,18 @@ def model_run(step):
     ti = step["interrupt"]
     # candidate terminating events: (time, label)
     events = []
+    exc = step.get("exc") or "UserError"
     if k in ("return", "raise"):
         # completes synchronously at time 0 inside callWhenRunning, before any timed event
-        res = ("value", step["value"]) if k == "return" else ("raise", "UserError")
+        res = ("value", step["value"]) if k == "return" else ("raise", exc)
         return {res}, {0}, {"sync": True}
     events.append((T, "timeout"))
     if k in ("fire", "fail"):
         events.append((step["t"], "result"))
     if ti is not None:
         events.append((ti, "interrupt"))
+        if step.get("interrupt2") is not None:
+            events.append((step["interrupt2"], "interrupt"))      # the earliest stop request decides
     first = min(t for t, _ in events)
     winners = [lab for t, lab in events if t == first]
     out = set()
@@ -84,7 +117,7 @@ def model_run(step):
         elif w == "interrupt":
             out.add(("raise", "NoResultError"))
         else:
-            out.add(("value", step["value"]) if k == "fire" else ("raise", "UserError"))
+            out.add(("value", step["value"]) if k == "fire" else ("raise", exc))
     return out, {first}, {"sync": False, "winners": winners}
 
 
@@ -92,13 +125,86 @@ class UserError(Exception):
     pass
 
 
+EXC = {"UserError": UserError, "KeyboardInterrupt": KeyboardInterrupt, "SystemExit": SystemExit}
+
+
+class Hostile:
+    """A value that claims to be equal to everything (a sentinel compared with == / != instead of 'is' is fooled)."""
+
+    def __eq__(self, other):
+        return True
+
+    def __ne__(self, other):
+        return False
+
+    def __hash__(self):
+        return 0
+
+    def __repr__(self):
+        return "<HOSTILE>"
+
+
+class SReactor(VReactor):
+    """A VReactor that (a) knows which delayed calls the harness scheduled itself (``own``): every other delayed
+    call was scheduled by the code under test and is remembered in ``foreign`` together with the number of the run
+    and whether f had been called yet; (b) can deliver SIGTERM / a bare reactor.stop() as well as SIGINT; (c) like
+    the real reactors cannot be run again once its real stop() has been called."""
+
+    def __init__(self, ties=()):
+        VReactor.__init__(self, ties)
+        self.foreign = []          # (DelayedCall, run number, True if f had not been called yet in that run)
+        self.run_no = 0
+        self.f_called = False
+        self._own = False
+        self.stopped_for_good = False
+
+    def own(self, delay, f, *a, **kw):
+        self._own = True
+        try:
+            return self.callLater(delay, f, *a, **kw)
+        finally:
+            self._own = False
+
+    def callLater(self, delay, f, *a, **kw):
+        c = VReactor.callLater(self, delay, f, *a, **kw)
+        if not self._own:
+            self.foreign.append((c, self.run_no, not self.f_called))
+        return c
+
+    def stop_request_at(self, t, how):
+        """At virtual time t: deliver SIGINT / SIGTERM to whatever handler is installed then, or call reactor.stop()
+        (looked up then) from outside any delayed call."""
+        if how == "stop":
+            def deliver():
+                self.interrupts_delivered += 1
+                self.stop()
+        else:
+            def deliver():
+                self.interrupts_delivered += 1
+                h = signal.getsignal(getattr(signal, how))
+                if callable(h):
+                    h(getattr(signal, how), None)
+        self.at(t, deliver)
+
+    def stop(self):
+        VReactor.stop(self)
+        self.stopped_for_good = True
+
+    def run(self, installSignalHandlers=True):
+        if self.stopped_for_good:
+            from twisted.internet.error import ReactorNotRestartable
+            raise ReactorNotRestartable()
+        return VReactor.run(self, installSignalHandlers)
+
+
 def run_case(spec):
     from testtools.twistedsupport._spinner import (Spinner, TimeoutError, NoResultError, ReentryError, StaleJunkError)
     from twisted.internet import defer
     vs = []
     with SignalSandbox():
-        reactor = VReactor()
+        reactor = SReactor()
         spinner = Spinner(reactor)
+        hostile = Hostile()
         original_stop = reactor.stop
         junk_pending = 0
         nruns = 0
@@ -130,12 +236,40 @@ def run_case(spec):
             original_stop = reactor.stop
             base = reactor.seconds()
             fired_extra = []
+            extra_calls = {}         # j -> the harness's own DelayedCall
+            readers = []             # the selectables registered for this run
             inner = []
+            late_inner = []
+            # the extra delayed calls; with late_reenter one more, due at the very instant the Deferred fires (or the
+            # timeout elapses), which tries to re-enter spinner.run - possibly after the reactor was crashed in the same
+            # pass, when run() has still not returned
+            extras = list(step["extra"])
+            late_j = None
+            if step.get("late_reenter") and step["kind"] in ("fire", "fail", "never"):
+                late_j = len(extras)
+                extras.append(step["t"] if step["kind"] in ("fire", "fail") else step["timeout"])
+
+            def extra_fn(j):
+                if j == late_j:
+                    try:
+                        late_inner.append(("returned", spinner.run(1, lambda: "inner")))
+                    except ReentryError:
+                        late_inner.append(("ReentryError",))
+                    except Exception as e:
+                        late_inner.append(("other", type(e).__name__))
+                fired_extra.append(j)
 
             fired_old = []
             current = []
+            thrown = []              # the exception instance f raised / failed its Deferred with
+            result_calls = []        # the harness's delayed call that fires / fails f's Deferred
+            value = hostile if step["value"] == "HOSTILE" else step["value"]
+            before = bool(step.get("extra_before")) and not junk_pending      # leftovers exist before run() instead of being made by f
+            reactor.run_no += 1
+            reactor.f_called = False
 
             def f(*args, **kwargs):
+                reactor.f_called = True
                 if args != (1, "two") or kwargs != {"k": 3}:
                     raise AssertionError("run() did not hand over its extra arguments: %r %r" % (args, kwargs))
                 step_ = step
@@ -146,10 +280,12 @@ def run_case(spec):
                     else:
                         unfinished.pop(0).callback("STALE")
                 if not step.get("extra_before"):
-                    for j, dly in enumerate(step["extra"]):
-                        reactor.callLater(dly, fired_extra.append, j)
-                for j in range(step["selectables"]):
-                    reactor.addReader(object())
+                    for j, dly in enumerate(extras):
+                        extra_calls[j] = reactor.own(dly, extra_fn, j)
+                if not before:
+                    for j in range(step["selectables"]):
+                        readers.append(object())
+                        reactor.addReader(readers[-1])
                 for _ in range(step["reenter"]):
                     try:
                         inner.append(("returned", spinner.run(1, lambda: "inner")))
@@ -159,30 +295,45 @@ def run_case(spec):
                         inner.append(("other", type(e).__name__))
                 k = step["kind"]
                 if k == "return":
-                    return step["value"]
+                    return value
                 if k == "raise":
-                    raise UserError("sync")
+                    thrown.append(EXC[step.get("exc") or "UserError"]("sync", n))
+                    raise thrown[0]
                 d = defer.Deferred()
                 current.append(d)
                 if k == "fire":
-                    reactor.callLater(step["t"], d.callback, step["value"])
+                    result_calls.append(reactor.own(step["t"], d.callback, value))
                 elif k == "fail":
-                    reactor.callLater(step["t"], d.errback, UserError("async"))
+                    thrown.append(EXC[step.get("exc") or "UserError"]("async", n))
+                    result_calls.append(reactor.own(step["t"], d.errback, thrown[0]))
                 return d
+            sigs = step.get("sigs") or ["SIGINT", "SIGINT"]
             if step["interrupt"] is not None:
-                reactor.interrupt_at(base + step["interrupt"])
-            if step.get("extra_before") and not junk_pending:
-                for j, dly in enumerate(step["extra"]):
-                    reactor.callLater(dly, fired_extra.append, j)
+                reactor.stop_request_at(base + step["interrupt"], sigs[0])
+                if step.get("interrupt2") is not None:
+                    reactor.stop_request_at(base + step["interrupt2"], sigs[1])
+            if before:
+                for j, dly in enumerate(extras):
+                    extra_calls[j] = reactor.own(dly, extra_fn, j)
+                for j in range(step["selectables"]):
+                    readers.append(object())
+                    reactor.addReader(readers[-1])
             fired_from = len(reactor.fired)
+            raised = None
             try:
                 res = ("value", spinner.run(step["timeout"], f, 1, "two", k=3))
-            except Hang:
-                raise
+            except Hang as e:
+                # nothing is scheduled any more (or 10000 passes went by) and the reactor was not stopped: run() would
+                # never return, whatever f's Deferred does later
+                vs.append(V("result", "run-never-ends", "step %d %r: %s" % (n, {k: step[k] for k in ("kind", "t", "timeout", "interrupt")}, e)))
+                break
             except BaseException as e:
                 if isinstance(e, (MemoryError, RecursionError)):
                     raise
                 res = ("raise", type(e).__name__)
+                raised = e
+            if res[0] == "value" and res[1] is hostile:
+                res = ("value", "HOSTILE")
             # drop external events that never fired (the interrupt came too late)
             reactor.external = [e for e in reactor.external if not e[2] and False]
             label = "run%d" % min(nruns, 2)
@@ -206,17 +357,22 @@ def run_case(spec):
             w = info.get("winners", [])
             if "timeout" in w and "result" in w and "interrupt" not in w:
                 # both timed calls were due in the same reactor pass: whichever the reactor ran first decides
+                # The spinner's timeout call is recognised by what it is, not by its name: a delayed call that the
+                # code under test (not the harness) scheduled during this run() before f was called and that is due
+                # exactly ``timeout`` after the start.  The result call is the harness's own.  If no such timeout call
+                # exists (a spinner that keeps time differently) both outcomes stay admissible.
+                timeout_calls = [c for c, run_no, early in reactor.foreign
+                                 if run_no == reactor.run_no and early and c.getTime() == base + step["timeout"]]
                 order = []
                 for tm, c in reactor.fired[fired_from:]:
-                    fn = getattr(c, "func", None)
-                    if getattr(fn, "__name__", "") == "_timed_out":
+                    if any(c is tc for tc in timeout_calls):
                         order.append("timeout")
-                    elif isinstance(getattr(fn, "__self__", None), defer.Deferred):
+                    elif any(c is rc for rc in result_calls):
                         order.append("result")
-                if order[:1] == ["timeout"]:
+                if timeout_calls and order[:1] == ["timeout"]:
                     admissible = {("raise", "TimeoutError")}
-                elif order[:1] == ["result"]:
-                    admissible = {("value", step["value"]) if step["kind"] == "fire" else ("raise", "UserError")}
+                elif timeout_calls and order[:1] == ["result"]:
+                    admissible = {("value", step["value"]) if step["kind"] == "fire" else ("raise", step.get("exc") or "UserError")}
             wrong_result = res not in admissible
             if wrong_result and fired_old:
                 # the callbacks an earlier run left on its Deferred act on this run (its result, its timeout call)
@@ -235,8 +391,15 @@ def run_case(spec):
                 vs.append(V("result", bucket, "step %d %r: run() gave %r, model admits %s (earlier results on this spinner: %r)" % (
                     n, {k: step[k] for k in ("kind", "t", "timeout", "interrupt", "value")}, res, want, previous_results)))
             previous_results.append(res)
+            if not wrong_result and raised is not None and thrown and res == ("raise", type(thrown[0]).__name__) and (
+                    type(raised) is not type(thrown[0]) or raised.args != thrown[0].args):
+                # 'raises the exception f raised / its Deferred failed with': at least the same class with the same arguments
+                vs.append(V("result", "exception-not-the-one-raised", "step %d: f %s %r, run() raised %r" % (
+                    n, "raised" if step["kind"] == "raise" else "failed its Deferred with", thrown[0], raised)))
             if step["reenter"] and inner != [("ReentryError",)] * step["reenter"]:
                 vs.append(V("reentry", "accepted", "re-entrant run() calls gave %r" % (inner,)))
+            if late_inner and late_inner != [("ReentryError",)]:
+                vs.append(V("reentry", "accepted-from-a-delayed-call", "spinner.run() called from a delayed call while run() had not returned gave %r" % (late_inner,)))
             # ---- process / reactor state
             if reactor.running:
                 vs.append(V("restore", "reactor-running", "reactor still running after run()"))
@@ -268,7 +431,7 @@ def run_case(spec):
             junk = spinner.get_junk()
             new_junk = len(junk) - junk_pending
             lo = hi = 0
-            for j, dly in enumerate(step["extra"]):
+            for j, dly in enumerate(extras):
                 n_fired = fired_extra.count(j)
                 if n_fired > 1:
                     vs.append(V("calls", "fired-twice", "a delayed call fired %d times" % n_fired))
@@ -277,6 +440,9 @@ def run_case(spec):
                 if dly > end:
                     if n_fired:
                         vs.append(V("calls", "late-call-fired", "a call due at %r fired although the run ended at %r" % (dly, end)))
+                    elif j in extra_calls and not any(x is extra_calls[j] for x in junk):
+                        # 'leftovers are cancelled or removed and reported as junk': the leftover itself
+                        vs.append(V("junk", "leftover-call-not-in-junk", "the delayed call due at %r was left over when the run ended at %r, but it is not among the junk %r" % (dly, end, junk)))
                     lo += 1
                     hi += 1
                 elif dly == end and not n_fired:
@@ -295,9 +461,13 @@ def run_case(spec):
             if res == ("raise", "NoResultError"):
                 pend_result = 1 if step["kind"] in ("fire", "fail") and (step["t"] > end or (step["t"] == end)) else 0
                 exact = lo + step["selectables"] + 1 + pend_result if step["kind"] not in ("fire", "fail") or step["t"] != end else None
+            for r in readers:
+                if not any(x is r for x in junk):
+                    vs.append(V("junk", "selectable-not-in-junk", "a selectable registered for this run is not among the junk %r" % (junk,)))
+                    break
             if not (lo_total <= new_junk <= hi_total):
                 vs.append(V("junk", "count", "%d new junk items reported, model expects between %d and %d (extra calls %r, end %r, result %r)" % (
-                    new_junk, lo_total, hi_total, step["extra"], end, res)))
+                    new_junk, lo_total, hi_total, extras, end, res)))
             junk_pending = len(junk)
             if step["interrupt"] is not None:
                 had_interrupt = True
@@ -345,9 +515,65 @@ def custom_real_reactor(ctx):
     return out
 
 
+def _step(kind, timeout, **kw):
+    step = {"op": "run", "kind": kind, "timeout": timeout, "fire_old": False, "extra_before": False,
+            "t": None, "value": "v", "extra": [], "selectables": 0, "interrupt": None, "reenter": 0, "ties": [],
+            "handlers": ["SIG_DFL", "default_int_handler", "pyfunc"], "own_stop": False, "exc": "UserError",
+            "interrupt2": None, "sigs": ["SIGINT", "SIGINT"], "late_reenter": False}
+    step.update(kw)
+    return step
+
+
+def _enum_corners():
+    """Small exhaustive grid for the dimensions that the random histories reach in a few per cent of the cases only
+    (third audit A1-A3 and the open items of the second), so that they are met at every seed."""
+    clear = {"op": "clear_junk"}
+    after = _step("return", 2)
+    # one or two stop requests (SIGINT / SIGTERM / a bare reactor.stop()), the second in the same reactor pass or later;
+    # then the same spinner and reactor must be usable again
+    for kind, t in (("never", None), ("fire", 3), ("fail", 3)):
+        for first in ("SIGINT", "SIGTERM", "stop"):
+            for second in (None, "SIGINT", "SIGTERM", "stop"):
+                for at2 in ((1, 2) if second else (None,)):
+                    for ties in ([], [1]):
+                        yield {"history": [_step(kind, 5, t=t, interrupt=1, interrupt2=at2, sigs=[first, second or "SIGINT"], ties=ties, extra=[7]),
+                                           clear, after]}
+    # what f raises / its Deferred fails with is not an Exception; a value equal to everything
+    for exc in ("UserError", "KeyboardInterrupt", "SystemExit"):
+        yield {"history": [_step("raise", 2, exc=exc), after]}
+        yield {"history": [_step("fail", 2, t=1, exc=exc), after]}
+        yield {"history": [_step("fail", 2, t=0, exc=exc), after]}
+    for value in ("HOSTILE", None, 0):
+        yield {"history": [_step("return", 2, value=value), _step("fire", 2, t=1, value=value), _step("fire", 2, t=0, value=value)]}
+    # timeout 0
+    for ties in ([], [1]):
+        yield {"history": [_step("return", 0, ties=ties), _step("raise", 0, ties=ties)]}
+        yield {"history": [_step("never", 0, ties=ties), clear, after]}
+        yield {"history": [_step("fire", 0, t=0, ties=ties), clear, after]}
+        yield {"history": [_step("fire", 0, t=1, ties=ties), clear, after]}
+        yield {"history": [_step("fail", 0, t=2, ties=ties, extra=[0, 1]), clear, after]}
+    # selectables (and delayed calls) that exist before run() is called
+    for kind, t in (("return", None), ("raise", None), ("fire", 1), ("never", None)):
+        for nsel in (1, 2):
+            for extra in ([], [7], [0, 7]):
+                yield {"history": [_step(kind, 2, t=t, extra_before=True, selectables=nsel, extra=extra), clear, after]}
+    # spinner.run() from a delayed call due at the instant the run ends (before / after the reactor was crashed in that pass)
+    for kind, t in (("fire", 1), ("fail", 1), ("never", None)):
+        for ties in ([0], [1], [2], [0, 1], [1, 1]):
+            for before in (False, True):
+                yield {"history": [_step(kind, 2, t=t, late_reenter=True, ties=ties, extra_before=before), clear, after]}
+    # timeout and result due in the same reactor pass: whichever the reactor ran first decides
+    for kind in ("fire", "fail"):
+        for T in (1, 2.5, 0):
+            for ties in ([0], [1], [0, 1], [1, 0], [2], [1, 1]):
+                for before in (False, True):
+                    yield {"history": [_step(kind, T, t=T, ties=ties, extra=[T] if before else [], extra_before=before), clear, after]}
+
+
 def subchecks(tier):
     q = tier == "quick"
     return [
         Sub("spinner_histories", run_case, st.fixed_dictionaries({"history": HISTORY}), 2500 if q else 120000),
+        Sub("corner_grid", run_case, enum=_enum_corners, enum_complete=True),
         Sub("real_reactor_subset", run_case, custom=custom_real_reactor),
     ]
